@@ -11,4 +11,4 @@ require (
 	google.golang.org/protobuf v1.36.11 // indirect
 )
 
-replace connectrpc.com/vanguard => /tmp/wt1
+replace connectrpc.com/vanguard => /repo
